@@ -105,11 +105,19 @@ pub struct TraitCase {
     /// ordered range must reach matcher and answer function like the first
     #[serde(default)]
     pub ordered_twice: bool,
+    /// the tested method is a PROVIDED one (it has a default body, which must never run: the clause answers)
+    #[serde(default)]
+    pub provided: bool,
 }
 
 impl TraitCase {
     /// `ordered_twice` needs a receiver that survives the call, no caller-visible mutation between the two
     /// calls and a clause to quantify
+    /// a default body is declared where the clause (not a real function) resolves the call
+    pub fn has_default_body(&self) -> bool {
+        // (provided methods with a Box<Self> receiver are not supported by the macro: calibrated on the unchanged tree)
+        self.provided && self.api != Api::Hidden && self.asy != Asy::ImplFuture && self.recv != Recv::Boxed
+    }
     pub fn calls_twice(&self) -> bool {
         self.ordered_twice
             && self.api != Api::Hidden
@@ -505,7 +513,11 @@ pub fn source(c: &TraitCase) -> String {
     for i in 0..c.before {
         s.push_str(&format!("    fn other_b{i}(&self, x: u8) -> u8;\n"));
     }
-    s.push_str(&format!("    {};\n", c.method_sig(true)));
+    if c.has_default_body() {
+        s.push_str(&format!("    {} {{ panic!(\"DEFAULT-BODY-REACHED\") }}\n", c.method_sig(true)));
+    } else {
+        s.push_str(&format!("    {};\n", c.method_sig(true)));
+    }
     if c.twin {
         s.push_str(&format!(
             "    {};\n",
@@ -793,6 +805,7 @@ pub fn judge(c: &TraitCase, line: &str) -> Result<CaseInfo, String> {
         .class_if(n >= 4, "arity>=4")
         .class_if(c.twin, "has-twin-method-of-same-signature")
         .class_if(c.calls_twice(), "ordered-clause-n_times(2)-called-twice")
+        .class_if(c.has_default_body(), "provided-method(default-body-must-not-run)")
         .class_if(parts[3] == "0", "future-dropped-unpolled"))
 }
 
@@ -820,9 +833,9 @@ pub fn case_strategy() -> impl Strategy<Value = TraitCase> {
         0..3usize,
         0..3usize,
         any::<bool>(),
-        (any::<bool>(), proptest::bool::weighted(0.35)),
+        (any::<bool>(), proptest::bool::weighted(0.35), proptest::bool::weighted(0.3)),
     )
-        .prop_map(|(recv, mut params, ret_sel, mut asy, api, before, after, arc, (twin, ordered_twice))| {
+        .prop_map(|(recv, mut params, ret_sel, mut asy, api, before, after, arc, (twin, ordered_twice, provided))| {
             // at most one impl-Trait parameter (explicit type arguments cannot name further ones portably)
             let mut seen_impl = false;
             for p in params.iter_mut() {
@@ -887,7 +900,7 @@ pub fn case_strategy() -> impl Strategy<Value = TraitCase> {
                 // Rc<Self> futures are !Send; fine, but keep the grammar to what the macro documents
                 asy = Asy::Sync;
             }
-            TraitCase { recv, params, ret, asy, api, before, after, arc, twin, ordered_twice }
+            TraitCase { recv, params, ret, asy, api, before, after, arc, twin, ordered_twice, provided }
         })
 }
 
